@@ -45,7 +45,7 @@ static void ptxt(const char *fmt, ...) {
 }
 #define BAD(key, ...) do { char _b[600]; snprintf(_b, sizeof(_b), __VA_ARGS__); vf_fail(key, "%s seed=%llu dtor=%d: %s | program: %s", kname[c->k], cur_seed, c->with_dtor, _b, prog_txt); } while (0)
 
-static long long st_ops, st_itr_rm_last, st_itr_rm_first, st_itr_rm_mid, st_itr_set, st_itr_ins, st_after_itr_edit_ops, st_dtor;
+static long long st_ops, st_itr_rm_last, st_itr_rm_first, st_itr_rm_mid, st_itr_set, st_itr_ins, st_after_itr_edit_ops, st_dtor, st_itr_rm_twice_list;
 
 /* --- adapters --- */
 static ssize_t c_len(cont_t *c) { return c->k == Q ? m_queue_len(c->q) : c->k == S ? m_stack_len(c->s) : m_list_len(c->l); }
@@ -266,6 +266,20 @@ static void op_walk(cont_t *c, const uint8_t *act, int nact) {
                 if (r >= 0) BAD("C12/itr-remove-twice", "second remove returned %d", r);
                 expect_dtor(c, NULL, 0, "refused iterator ops");
             }
+            if (c->k >= L && a == 5) {
+                /* list: the iterator now stands on the successor; a second remove without next() in between drops that
+                 * one too (or is refused when there is none) and every element still in the list is then visited once */
+                bool has_succ = cur < c->n;
+                int id2 = has_succ ? c->model[cur] : -1;
+                r = m_list_itr_remove(itr);
+                if (r == 0) {
+                    if (!has_succ) { BAD("C12/itr-remove-twice", "second remove at the end of the list returned 0"); return; }
+                    m_remove_at(c, cur);
+                    expect_dtor(c, &id2, 1, "second itr_remove");
+                    st_itr_rm_twice_list++;
+                } else expect_dtor(c, NULL, 0, "refused second itr_remove");
+                verify(c, "itr_remove twice");
+            }
             verify(c, "itr_remove");
             break;
         }
@@ -353,7 +367,7 @@ static void c_free(cont_t *c, uint64_t live0) {
 
 /* ---- exhaustive enumeration of short programs ---- */
 /* alphabet: 0 add 1 add(dup key) 2 take/remove-by-ptr 3 remove(front)/remove-by-key 4 peek/find 5 clear
- *           6 walk rm first 7 walk rm last 8 walk rm all 9 walk rm middle 10 walk set last 11 walk rm-twice last
+ *           6 walk rm first 7 walk rm last 8 walk rm all 9 walk rm middle 10 walk set last 11 walk rm-twice last (list with >= 2 elements: rm-twice first)
  *           12 walk ins first(list) 13 walk ins last (list) 14 walk ins+rm everywhere (list) 15 walk nothing */
 #define ALPHA 16
 static void exec_letter(cont_t *c, int letter, vf_rng *r) {
@@ -373,7 +387,7 @@ static void exec_letter(cont_t *c, int letter, vf_rng *r) {
     case 8: memset(act, 1, sizeof(act)); op_walk(c, act, MAXN); break;
     case 9: if (n > 2) act[1] = 1; else if (n) act[n - 1] = 1; op_walk(c, act, MAXN); break;
     case 10: if (n) act[n - 1] = 2; op_walk(c, act, MAXN); break;
-    case 11: if (n) act[n - 1] = 5; op_walk(c, act, MAXN); break;
+    case 11: if (c->k >= L && n >= 2) act[0] = 5; else if (n) act[n - 1] = 5; op_walk(c, act, MAXN); break;
     case 12: act[0] = 3; op_walk(c, act, MAXN); break;
     case 13: if (n) act[n - 1] = 3; op_walk(c, act, MAXN); break;
     case 14: memset(act, 4, sizeof(act)); op_walk(c, act, MAXN); break;
@@ -472,6 +486,7 @@ int main(int argc, char **argv) {
     vf_stat("random_programs", nrand);
     vf_stat("ops", st_ops);
     vf_stat("itr_remove_last", st_itr_rm_last);
+    vf_stat("list_itr_remove_twice_in_a_row", st_itr_rm_twice_list);
     vf_stat("itr_remove_first", st_itr_rm_first);
     vf_stat("itr_remove_middle", st_itr_rm_mid);
     vf_stat("itr_set", st_itr_set);
